@@ -8,5 +8,5 @@ def generatedImportSets : List (List String) := [
   ["\"encoding/json\"", "\"github.com/koykov/inspector\"", "\"github.com/koykov/inspector/testobj\""],
   ["\"encoding/json\"", "\"github.com/koykov/inspector\"", "\"github.com/koykov/inspector/testobj\"", "\"strconv\""]
 ]
-def generatedFilesScanned : Nat := 348
+def generatedFilesScanned : Nat := 393
 end Inspector
